@@ -78,6 +78,44 @@ theorem model_sign_covers_lossless (alpha : List (List Rat)) (n : Nat) (sg : Lis
   rw [hset]
   exact h1 i hi
 
+/-- the same for a CONDITIONAL cone over a compact box (where `defaultEch_covers_plain` says the executable helper returns the sign covers,
+    heuristic reduction and optimisation-based presolve being off): a decomposition into vectors certified over the box with full covers
+    can be rewritten over the covers the model (and the code) builds -/
+theorem model_box_sign_covers_lossless (alpha : List (List Rat)) (n : Nat) (lo hi : Fin n → ℝ) (hne : ∀ l, lo l ≤ hi l)
+    (sg : List CSign) (c : Fin alpha.length → ℝ)
+    (hneg : ∀ l : Fin alpha.length, sg.getD l.val .zero = .neg → c l < 0)
+    (w : Fin alpha.length → Fin alpha.length → ℝ)
+    (hw : ∀ k, Sageopt.Props.C06.CondAgeCert (alphaR alpha n) k (Finset.univ.erase k) (Sageopt.Props.C06.boxA n)
+      (Sageopt.Props.C06.boxb lo hi) (Sageopt.Props.C06.orthant (n + n)) (w k))
+    (hsum : ∀ l, c l = ∑ k, w k l) :
+    ∃ ŵ : Fin alpha.length → Fin alpha.length → ℝ,
+      (∀ i, c i < 0 → Sageopt.Props.C06.CondAgeCert (alphaR alpha n) i
+        (coverSet alpha.length (signCover alpha.length ((List.range alpha.length).filter (fun j => sg.getD j .zero == .neg)) i.val))
+        (Sageopt.Props.C06.boxA n) (Sageopt.Props.C06.boxb lo hi) (Sageopt.Props.C06.orthant (n + n)) (ŵ i)) ∧
+      (∀ l, ∑ i ∈ Finset.univ.filter (fun i => c i < 0), ŵ i l ≤ c l) := by
+  set Nl := (List.range alpha.length).filter (fun j => sg.getD j .zero == .neg) with hNl
+  obtain ⟨ŵ, h1, h2⟩ := box_default_covers_lossless (alphaR alpha n) lo hi hne c
+    (Finset.univ.filter (fun l : Fin alpha.length => l.val ∈ Nl))
+    (by
+      intro l hl
+      have hmem : l.val ∈ Nl := (Finset.mem_filter.mp hl).2
+      rw [hNl, List.mem_filter] at hmem
+      apply hneg l
+      have hb := hmem.2
+      revert hb
+      cases sg.getD l.val CSign.zero <;> simp <;> decide) w hw hsum
+  refine ⟨ŵ, ?_, h2⟩
+  intro i hi
+  rw [signCover_coverSet]
+  have hset : Finset.univ.filter (fun l : Fin alpha.length => l.val ∉ Nl ∧ l.val ≠ i.val)
+      = Finset.univ.filter (fun l : Fin alpha.length =>
+          l ∉ Finset.univ.filter (fun l : Fin alpha.length => l.val ∈ Nl) ∧ l ≠ i) := by
+    apply Finset.filter_congr
+    intro l _
+    simp [Fin.ext_iff]
+  rw [hset]
+  exact h1 i hi
+
 /-! ### non-vacuity -/
 
 example : signCover 4 [1, 3] 0 = [false, false, true, false] := by decide
